@@ -326,6 +326,9 @@ impl<const H: usize> Writer<H> {
 
         self.sync()?;
 
+        // Move the file cursor back as well, so the next append lands at the new write offset
+        self.writer.seek(SeekFrom::Start(offset))?;
+
         self.flushed_offset.set(offset);
         self.write_offset = offset;
         #[cfg(feature = "verif")]
